@@ -1,6 +1,7 @@
 import Driver.Dec
 import Driver.Rid
 import Driver.Evq
+import Driver.EvqConc
 /-! `mio-driver`: reads one case per line (`<model> <args…>`), prints what the model computes.
 Imports model files only (no Mathlib, no lemma files), so it links as a native executable. -/
 open Mio Mio.Driver
@@ -11,7 +12,7 @@ def dispatch (line : String) : String :=
   | "var" :: ws => runVar ws
   | "addr" :: ws => runAddr ws
   | "rid" :: ws => runRid ws
-  | "vq" :: ws => runVq ws
+  | "vq" :: ws => runVq2 ws
   | _ => "bad-case"
 
 partial def loop (h : IO.FS.Stream) (out : IO.FS.Stream) : IO Unit := do
